@@ -2,6 +2,7 @@ package main
 
 import (
 	"errors"
+	"fmt"
 	"net"
 	"sync"
 	"sync/atomic"
@@ -59,6 +60,7 @@ type leaderNode struct {
 	cutDone    bool
 	beforeRPC  func(rec rpcRec) // runs in the handler before Handle (may reconfigure the leader)
 	afterRPC   func(rec rpcRec)
+	afterSend  func(rec rpcRec) // runs in the handler after every message that got through
 	msgsTotal  atomic.Int64
 	bytesTotal atomic.Int64
 }
@@ -123,6 +125,39 @@ func (ln *leaderNode) lastDelivered() (end int64, ok bool) {
 		}
 	}
 	return 0, false
+}
+
+// identicalRounds: length of the trailing run of completed RPCs (index >= from) that carried the same
+// request and got the same answer (first message, message count, data bytes, error).
+func (ln *leaderNode) identicalRounds(from int) (int, string) {
+	ln.mu.Lock()
+	defer ln.mu.Unlock()
+	n, key := 0, ""
+	for i := len(ln.rpcs) - 1; i >= from; i-- {
+		r := ln.rpcs[i]
+		if !r.Done {
+			if i == len(ln.rpcs)-1 {
+				continue // the round in progress
+			}
+			break
+		}
+		k := fmt.Sprintf("request(id %.8s, offset %d)", r.ReqRunID, r.ReqOffset)
+		if len(r.Msgs) > 0 {
+			m := r.Msgs[0]
+			k += fmt.Sprintf(" -> %s aof=%v offset=%d size=%d", m.Code, m.Aof, m.Offset, m.Size)
+		}
+		k += fmt.Sprintf(", %d messages, %d bytes, err=%q", r.NMsgs, r.DataBytes, r.Err)
+		if r.Cut {
+			break
+		}
+		if n == 0 {
+			key = k
+		} else if k != key {
+			break
+		}
+		n++
+	}
+	return n, key
 }
 
 func (ln *leaderNode) snapshotRPCs() []rpcRec {
@@ -217,6 +252,13 @@ func (s *cutStream) Send(m *pb.SyncResponse) error {
 	if err == nil {
 		s.ln.msgsTotal.Add(1)
 		s.ln.bytesTotal.Add(int64(len(m.GetData())))
+		if h := s.ln.afterSend; h != nil {
+			s.ln.mu.Lock()
+			snap := *s.rec
+			snap.Msgs = append([]msgRec(nil), s.rec.Msgs...)
+			s.ln.mu.Unlock()
+			h(snap)
+		}
 	}
 	return err
 }
